@@ -65,3 +65,24 @@ package keeper
 //@       a1.0.OutflowTokenInitialPrice == A.OutflowTokenInitialPrice && a1.0.OutflowTokenEndPrice == A.OutflowTokenEndPrice && \
 //@       a1.0.StartTime == A.StartTime && a1.0.EndTime == A.EndTime && \
 //@       a1.0.OutflowTokenCurrentAmount == A.OutflowTokenCurrentAmount && a1.0.InflowTokenCurrentAmount == A.InflowTokenCurrentAmount && a1.0.InflowTokenTargetAmount == A.InflowTokenTargetAmount
+
+// First-generation dutch close (C02, C10): closing burns exactly the principal of the locked vault that is retired
+// (supply of the debt denom goes down by it, the published minted total of the product too), the rest of the target goes
+// to the collector and is booked as net fees; the auction and the locked vault are removed.
+//@ pred mapMintV(vk, ctx, app, ep): vk.GetAppExtendedPairVaultMappingData(ctx, app, ep).0.TokenMintedAmount
+//@ func (k Keeper) CloseDutchAuction
+//@   property C02, C10
+//@   let A = dutchAuction
+//@   let lv = K("liquidation").GetLockedVault(ctx, dutchAuction.AppId, dutchAuction.LockedVaultId).0
+//@   let d = dutchAuction.InflowTokenCurrentAmount.Denom
+//@   let am = modaddr("auctionV1")
+//@   let cm = modaddr("collectorV1")
+//@   let epv = K("asset").GetPairsVault(ctx, lv.ExtendedPairId).0
+//@   requires #fee-book: forall a, b :: ite(K("collector").GetNetFeeCollectedData(ctx, a, b).1, K("collector").GetNetFeeCollectedData(ctx, a, b).0.NetFeesCollected, 0) >= 0
+//@   requires #totals-keyed: K("vault").GetAppExtendedPairVaultMappingData(ctx, epv.AppId, epv.Id).1 ==> K("vault").GetAppExtendedPairVaultMappingData(ctx, epv.AppId, epv.Id).0.AppId == epv.AppId && K("vault").GetAppExtendedPairVaultMappingData(ctx, epv.AppId, epv.Id).0.ExtendedPairId == epv.Id
+//@   requires #locked-vault: lv.AmountOut >= 0
+//@   loop 0 invariant #bank-untouched: forall a, dd :: bal(a, dd) == old(bal(a, dd))
+//@   loop 0 invariant #supply-untouched: forall dd :: supply(dd) == old(supply(dd))
+//@   ensures [C02] #c02-burn-is-principal-retired: result == nil ==> supply(d) == old(supply(d)) - lv.AmountOut
+//@   ensures [C02] #c02-published-total-follows: result == nil && K("vault").GetAppExtendedPairVaultMappingData(ctx, epv.AppId, epv.Id).1 ==> mapMintV(K("vault"), ctx, epv.AppId, epv.Id) == old(mapMintV(K("vault"), ctx, epv.AppId, epv.Id)) - lv.AmountOut
+//@   ensures [C10] #c10-proceeds-distributed: result == nil && A.InflowTokenTargetAmount.Amount >= lv.AmountOut ==> bal(am, d) == old(bal(am, d)) - A.InflowTokenTargetAmount.Amount && bal(cm, d) == old(bal(cm, d)) + (A.InflowTokenTargetAmount.Amount - lv.AmountOut)
